@@ -20,6 +20,7 @@ from . import linsolve
 
 _ACTIVE = [False]
 USED_STUBS = set()
+OPAQUE_INV_FROM = None  # when set to n: np.linalg.inv of a symbolic matrix of size >= n returns opaque fresh symbols (contract only)
 
 
 def active():
@@ -349,6 +350,8 @@ class _LinalgProxy:
         if isinstance(x, Sym):
             return sym_abs(x)
         x = _np.asarray(x)
+        if x.ndim == 0 and x.dtype == object:
+            return sym_abs(x.item()) if isinstance(x.item(), Sym) else abs(x.item())
         if x.dtype != object or not has_sym(x):
             return _np.linalg.norm(demote(x), ord=ord, axis=axis, keepdims=keepdims)
         if ord not in (None, 2, "fro"):
@@ -387,6 +390,16 @@ class _LinalgProxy:
         USED_STUBS.add("np.linalg.inv(symbolic) -> exact fraction-free elimination (assumes det != 0, recorded)")
 
         def one(m):
+            if OPAQUE_INV_FROM is not None and m.shape[-1] >= OPAQUE_INV_FROM:
+                USED_STUBS.add("np.linalg.inv(dense symbolic matrix of size >= %d) -> opaque fresh symbols (LAPACK contract, not used by the assertions of this job)" % OPAQUE_INV_FROM)
+                n_ = m.shape[-1]
+                out = _np.empty((n_, n_), dtype=object)
+                cc = ctx()
+                for i in range(n_):
+                    for j in range(n_):
+                        out[i, j] = cc.var(f"inv{len(cc.names)}[{i},{j}]", kind="aux", shadow=0)
+                        cc.auxdef[len(cc.names) - 1] = ("opaque", ())
+                return out
             X, det = linsolve.inv_sym(m)
             _record_nonzero(det, "matrix inverted by np.linalg.inv is non-singular")
             return X
@@ -706,6 +719,55 @@ def _easyfea_modules():
 _INSTALLED = [False]
 
 
+def _install_param_wrappers():
+    """Utilities/_params checkers test isinstance(x, (int, float)); a Sym must go through the *same comparison*,
+    which thereby lands in the path condition as the documented precondition."""
+    from EasyFEA.Utilities import _params as P
+
+    if getattr(P, "_verif_wrapped", False):
+        return
+    orig = {n: getattr(P, n) for n in ("_CheckIsScalar", "_CheckIsScalarOrField", "_CheckIsPositive", "_CheckIsNegative", "_CheckIsInIntervalcc", "_CheckIsInIntervaloo")}
+
+    def scalar(value):
+        if isinstance(value, Sym):
+            return
+        return orig["_CheckIsScalar"](value)
+
+    def scalar_or_field(value):
+        if isinstance(value, Sym):
+            return
+        return orig["_CheckIsScalarOrField"](value)
+
+    def positive(value):
+        if isinstance(value, Sym):
+            assert value >= 0.0, "Must be >= 0!"
+            return
+        return orig["_CheckIsPositive"](value)
+
+    def negative(value):
+        if isinstance(value, Sym):
+            assert value <= 0.0, "Must be <= 0!"
+            return
+        return orig["_CheckIsNegative"](value)
+
+    def incc(value, inf, sup):
+        if isinstance(value, Sym):
+            assert inf < value < sup
+            return
+        return orig["_CheckIsInIntervalcc"](value, inf, sup)
+
+    def inoo(value, inf, sup):
+        if isinstance(value, Sym):
+            assert inf <= value <= sup
+            return
+        return orig["_CheckIsInIntervaloo"](value, inf, sup)
+
+    P._CheckIsScalar, P._CheckIsScalarOrField, P._CheckIsPositive = scalar, scalar_or_field, positive
+    P._CheckIsNegative, P._CheckIsInIntervalcc, P._CheckIsInIntervaloo = negative, incc, inoo
+    P._verif_wrapped = True
+    USED_STUBS.add("Utilities._params checkers accept a Sym and perform the same comparison (recorded as path condition)")
+
+
 def install():
     """Replace np / sparse / sla in every loaded EasyFEA module by the proxies (idempotent).  With
     symbolic mode off the proxies forward to numpy/scipy, so behaviour is unchanged."""
@@ -714,6 +776,7 @@ def install():
     import EasyFEA.Models  # noqa: F401
 
     _patch_scipy_object_matmul()
+    _install_param_wrappers()
     for m in _easyfea_modules():
         if getattr(m, "np", None) is _np:
             m.np = NP
